@@ -214,12 +214,29 @@ def readGlyphSet (f : Font) (fuel : Nat) : PM (List Nat) := do
 
 /-! ### lookup tables -/
 
+/-- `*gtab.GposValueRecord` without device offsets; `none` = nil -/
+structure VR where
+  x : Int
+  y : Int
+  dx : Int
+  dy : Int
+deriving Repr, DecidableEq
+
+/-- `*gtab.PairAdjust` -/
+abbrev PairAdj := Option VR × Option VR
+
 inductive Subtable where
   | gsub1_1 (cov : List Nat) (delta : Nat)
   | gsub1_2 (cov : List Nat) (subst : List Nat)
   | gsub2_1 (cov : List Nat) (repl : List (List Nat))
   | gsub3_1 (cov : List Nat) (alt : List (List Nat))
   | gsub4_1 (cov : List Nat) (repl : List (List (List Nat × Nat)))
+  | gpos1_1 (cov : List Nat) (adj : Option VR)
+  | gpos1_2 (cov : List Nat) (adj : List (Option VR))
+  /-- pairs sorted by (left, right) -/
+  | gpos2_1 (pairs : List ((Nat × Nat) × PairAdj))
+  /-- coverage set (ascending), class tables as (glyph, class) sorted by glyph, adjust matrix -/
+  | gpos2_2 (cov : List Nat) (class1 class2 : List (Nat × Nat)) (adjust : List (List PairAdj))
 deriving Repr, DecidableEq
 
 structure Lookup where
@@ -354,6 +371,174 @@ def readGsub4 (f : Font) (fuel : Nat) : PM Lookup := do
   let subs ← subtablesLoop (gsub4Sub f fuel) fuel []
   pure { typ := 4, flags := flags, subtables := subs }
 
+/-! ### GPOS 1 and 2 -/
+
+def optionalIdentifier (name : List Nat) : PM Bool := do
+  let t ← readItem
+  if isIdent t name then pure true
+  else do pushBack t; pure false
+
+def requiredIdentifier (name : List Nat) : PM Unit := do
+  let t ← readItem
+  if isIdent t name then pure () else fatal "expected identifier"
+
+/-- `readInteger` then the range check of `readInt16`.  `strconv.Atoi` fails without digits
+and outside the 64-bit range. -/
+def readInt16 : PM Int := do
+  let t ← readItem
+  if t.typ != tInteger then fatal "expected integer"
+  else
+    match atoi t.bytes with
+    | none => fatal "invalid integer"
+    | some v =>
+      if v > 9223372036854775807 || v < -9223372036854775808 then fatal "invalid integer"
+      else if v < -32768 || v > 32767 then fatal "int16 out of range"
+      else pure v
+
+def kwX : List Nat := [120]
+def kwY : List Nat := [121]
+def kwDx : List Nat := [100, 120]
+def kwDy : List Nat := [100, 121]
+def kwUnderscore : List Nat := [95]
+def kwFirst : List Nat := [102, 105, 114, 115, 116]
+def kwSecond : List Nat := [115, 101, 99, 111, 110, 100]
+#guard kwX == lit "x" && kwY == lit "y" && kwDx == lit "dx" && kwDy == lit "dy" && kwUnderscore == lit "_" &&
+  kwFirst == lit "first" && kwSecond == lit "second"
+
+def valueItem (t : Tok) : Bool := isIdent t kwX || isIdent t kwY || isIdent t kwDx || isIdent t kwDy
+
+/-- the `valueRecordLoop` of `readGposValueRecord` -/
+def valueLoop : Nat → VR → PM VR
+  | 0, _ => throw { line := 0, cls := errFuel }
+  | fuel + 1, r => do
+    match ← takeIf valueItem with
+    | none => pure r
+    | some t =>
+      let v ← readInt16
+      if isIdent t kwX then valueLoop fuel { r with x := v }
+      else if isIdent t kwY then valueLoop fuel { r with y := v }
+      else if isIdent t kwDx then valueLoop fuel { r with dx := v }
+      else valueLoop fuel { r with dy := v }
+
+def readGposValueRecord (fuel : Nat) : PM (Option VR) := do
+  if (← optionalIdentifier kwUnderscore) then pure none
+  else
+    let r ← valueLoop fuel { x := 0, y := 0, dx := 0, dy := 0 }
+    if r.x == 0 && r.y == 0 && r.dx == 0 && r.dy == 0 then pure none else pure (some r)
+
+def readPairAdjust (fuel : Nat) : PM PairAdj := do
+  let a1 ← readGposValueRecord fuel
+  if (← optional [tAmpersand]) then
+    let a2 ← readGposValueRecord fuel
+    pure (a1, a2)
+  else pure (a1, none)
+
+/-- `m[k] = v` -/
+def aset {β : Type} (m : List (Nat × β)) (k : Nat) (v : β) : List (Nat × β) :=
+  if (aget m k).isSome then m.map fun p => if p.1 == k then (k, v) else p else m ++ [(k, v)]
+
+def gpos1Sub (f : Font) (fuel : Nat) : PM Subtable := do
+  if (← peek).typ == tSquareBracketOpen then
+    let from_ ← readGlyphSet f fuel
+    let _ ← required tArrow
+    let adj ← readGposValueRecord fuel
+    pure (.gpos1_1 from_ adj)
+  else
+    let res ← pairsLoop (fun (m : List (Nat × Option VR)) => do
+      let gids ← readGlyphList f fuel
+      if gids.length != 1 then fatal "expected single glyph"
+      else
+        let _ ← required tArrow
+        let adj ← readGposValueRecord fuel
+        pure (aset m (gids.headD 0) adj)) fuel []
+    let cov := keysAsc res
+    pure (.gpos1_2 cov (cov.map fun g => (aget res g).getD none))
+
+def readGpos1 (f : Font) (fuel : Nat) : PM Lookup := do
+  let flags ← header fuel
+  let subs ← subtablesLoop (gpos1Sub f fuel) fuel []
+  pure { typ := 1, flags := flags, subtables := subs }
+
+/-- `subtable[glyph.Pair{…}] = pair` on a list kept sorted by (left, right) -/
+def pairSet (m : List ((Nat × Nat) × PairAdj)) (k : Nat × Nat) (v : PairAdj) : List ((Nat × Nat) × PairAdj) :=
+  match m with
+  | [] => [(k, v)]
+  | e :: rest =>
+    if e.1 == k then (k, v) :: rest
+    else if k.1 < e.1.1 || (k.1 == e.1.1 && k.2 < e.1.2) then (k, v) :: e :: rest
+    else e :: pairSet rest k v
+
+/-- insert the glyphs of one class; a glyph that already has a class is fatal -/
+def classInsert : List Nat → Nat → List (Nat × Nat) → PM (List (Nat × Nat))
+  | [], _, tbl => pure tbl
+  | g :: gs, c, tbl =>
+    if (aget tbl g).isSome then fatal "duplicate class" else classInsert gs c (tbl ++ [(g, c)])
+
+/-- the `for i := 0; ; i++` loops reading `first …;` and `second …;` -/
+def classLoop (f : Font) (fuel : Nat) : Nat → Bool → List (Nat × Nat) → Nat → PM (List (Nat × Nat))
+  | 0, _, _, _ => throw { line := 0, cls := errFuel }
+  | n + 1, isFirst, tbl, cnt => do
+    if (← optional [tSemicolon]) then pure tbl
+    else
+      if !isFirst then
+        let _ ← required tComma
+      let gg ← readGlyphList f fuel
+      let tbl' ← classInsert gg cnt tbl
+      classLoop f fuel n false tbl' (cnt + 1)
+
+/-- `classdef.Table.NumClasses` -/
+def numClasses (tbl : List (Nat × Nat)) : Nat := (tbl.map (·.2)).foldl max 0 + 1
+
+def sortByGlyph (tbl : List (Nat × Nat)) : List (Nat × Nat) :=
+  (keysAsc tbl).map fun g => (g, (aget tbl g).getD 0)
+
+def adjustRow (fuel : Nat) : Nat → Nat → PM (List PairAdj)
+  | 0, _ => pure []
+  | k + 1, j => do
+    if j > 0 then
+      let _ ← optional [tComma]
+    let a ← readPairAdjust fuel
+    let rest ← adjustRow fuel k (j + 1)
+    pure (a :: rest)
+
+def adjustRows (fuel : Nat) (cols : Nat) : Nat → PM (List (List PairAdj))
+  | 0 => pure []
+  | k + 1 => do
+    let row ← adjustRow fuel cols 0
+    let _ ← optional [tComma, tSemicolon]
+    let _ ← optional [tEOL]
+    let rest ← adjustRows fuel cols k
+    pure (row :: rest)
+
+def gpos2Sub (f : Font) (fuel : Nat) : PM Subtable := do
+  if (← peek).typ == tSlash then
+    let _ ← required tSlash
+    let cov ← readGlyphList f fuel
+    let _ ← required tSlash
+    let _ ← optional [tEOL]
+    requiredIdentifier kwFirst
+    let c1 ← classLoop f fuel fuel true [] 1
+    let _ ← optional [tEOL]
+    requiredIdentifier kwSecond
+    let c2 ← classLoop f fuel fuel true [] 1
+    let _ ← optional [tEOL]
+    let adjust ← adjustRows fuel (numClasses c2) (numClasses c1)
+    pure (.gpos2_2 (sortUnique cov) (sortByGlyph c1) (sortByGlyph c2) adjust)
+  else
+    let res ← pairsLoop (fun (m : List ((Nat × Nat) × PairAdj)) => do
+      let from_ ← readGlyphList f fuel
+      if from_.length != 2 then fatal "expected glyph pair"
+      else
+        let _ ← required tArrow
+        let pair ← readPairAdjust fuel
+        pure (pairSet m (from_.headD 0, (from_.drop 1).headD 0) pair)) fuel []
+    pure (.gpos2_1 res)
+
+def readGpos2 (f : Font) (fuel : Nat) : PM Lookup := do
+  let flags ← header fuel
+  let subs ← subtablesLoop (gpos2Sub f fuel) fuel []
+  pure { typ := 2, flags := flags, subtables := subs }
+
 /-- outcome of the forms this file does not model: the driver reports `unmodelled` -/
 def unmodelled : String := "model-unmodelled-form"
 
@@ -374,7 +559,11 @@ def parseLoop (f : Font) (fuel : Nat) : Nat → List Lookup → PM (List Lookup)
       let l ← readGsub3 f fuel; parseLoop f fuel n (acc ++ [l])
     else if isIdent item (kwGSUB 4) then do
       let l ← readGsub4 f fuel; parseLoop f fuel n (acc ++ [l])
-    else if [kwGSUB 5, kwGSUB 6, kwGPOS 1, kwGPOS 2, kwGPOS 3, kwGPOS 4].any
+    else if isIdent item (kwGPOS 1) then do
+      let l ← readGpos1 f fuel; parseLoop f fuel n (acc ++ [l])
+    else if isIdent item (kwGPOS 2) then do
+      let l ← readGpos2 f fuel; parseLoop f fuel n (acc ++ [l])
+    else if [kwGSUB 5, kwGSUB 6, kwGPOS 3, kwGPOS 4].any
         (isIdent item) then throw { line := 0, cls := unmodelled }
     else fatal "unexpected"
 
